@@ -20,8 +20,15 @@ RULE = ('models include genuinely complex Hermitian Hamiltonians (SpinChain with
         '3-8 (thorough 3-10) sites with random couplings from small sets, random product state of the sector, engine in '
         '{TwoSite, SingleSite}, mixer in {None, False, True, SubspaceExpansion, DensityMatrixMixer} with random amplitude / '
         'decay / disable_after, diag_method in {default, lanczos, ED_block, arpack}, chi_max in {1,2,3,4,8,16,100} (optionally a '
-        'chi_list), max_sweeps 0-5, combine on/off, N_sweeps_check, lanczos_params. converge: two-site engine, mixer on, chi 200, '
-        '14 sweeps. idmrg / vumps: TFIChain on infinite unit cells of 1-4 sites. A run is non-trivial when it performed >= 2 '
+        'chi_list), max_sweeps 0-5, combine on/off, N_sweeps_check, lanczos_params. At every update of every run the tensor of mixed_svd that '
+        'moves into the environment (U for update_LP, VH for update_RP) is checked to be an isometry. converge: two-site engine, mixer in '
+        '{DensityMatrixMixer, SubspaceExpansion}, chi 200, 14 sweeps, half of the cases on a spin-1/2 chain whose flip-flop couplings '
+        'have range 2 only (L = 4, 6, 8; start patterns uudd / uddu / duud / udud): the two-site update alone cannot leave the '
+        'product state. api/mixer: Mixer.mix_and_decompose_2site (mix_left / mix_right / both) and mix_and_decompose_1site of both '
+        'mixer classes at every bond of a random complex MPS, amplitude in {0.5, 0.1, 0.01}. The quick tier runs one case of every '
+        'scenario kind first and stops at a wall-clock deadline (0.72 x budget); cases not finished are dropped and counted '
+        '(extra.cases_dropped_at_deadline), a case is stopped after 45 s (thorough 400 s) and counted, never judged. '
+        'idmrg / vumps: TFIChain on infinite unit cells of 1-4 sites. A run is non-trivial when it performed >= 2 '
         'sweeps on >= 4 sites; distinct by content hash.')
 TRUSTED = ['Lean 4.33 kernel; axioms of every C13_* theorem within {propext, Classical.choice, Quot.sound}',
            'tools/gen_C13.py (AST of Sweep.get_sweep_schedule -> lean/TenpyModel/Gen/C13Schedule.lean, regenerated every run)',
